@@ -8,27 +8,27 @@ HERE = os.path.dirname(os.path.dirname(os.path.abspath(__file__)))
 CHECKS = {
  "C01": dict(cat="model_checking", design="3/C01, 2.2",
     technique="explicit enumeration of operation sequences x inputs x modes on the real code (E1), state invariant after every API call",
-    text="Every depth-1 program (operator x operand kinds) on every input vector of the complete interval D(n) for bitlength 2,3 and a boundary lattice for 4/8/16, in plain / true-guard / false-guard modes, over the real scalar fields, plus depth-2 compositions; after every API call all newly emitted constraints are evaluated on the recorded witness. Exhaustive within these bounds; a hint computed wrongly for any operator/kind/mode/boundary value inside the bound is found.",
+    text="Every depth-1 program (operator x operand kinds) on every input vector of the complete interval D(n) for bitlength 2,3 and a boundary lattice for 4/8/16, in plain / true-guard / false-guard modes, over the real scalar fields, plus fixed-point operands, a huge-value lattice (machine-word and field boundaries), depth-2 compositions (every operator as inner operation) and a breadth-first search over operation SEQUENCES to depth 3 (4 thorough) with state merging, mode switches, guarded regions and aborted calls; after every API call all newly emitted constraints are evaluated on the recorded witness. Exhaustive within these bounds; a hint computed wrongly for any operator/kind/mode/boundary value inside the bound is found.",
     note="Trusts the recording backend (validated against pysnark.snarkjsbackend's own trace), Python integer arithmetic, and that inputs outside the explored intervals behave like the boundary lattice."),
  "C04": dict(cat="model_checking", design="3/C04, 2.2",
     technique="explicit enumeration of operation sequences x inputs x modes on the real code (E1), value==wire invariant at every returned object",
-    text="Same enumeration as C01 in all four modes (checked, ignore_errors, true guard, false guard); for every secret reachable from every returned object the reported value must be congruent mod p to its linear combination evaluated on the recorded witness.",
+    text="Same enumeration as C01 (incl. fixed-point operands, huge values, depth-2 and the depth-3/4 sequence search) in all four modes (checked, ignore_errors, true guard, false guard); for every secret reachable from every returned object the reported value must be congruent mod p to its linear combination evaluated on the recorded witness.",
     note="Same trusted base as C01."),
  "C05": dict(cat="model_checking", design="3/C05, 2.2",
     technique="explicit enumeration of operation sequences x inputs on the real code (E1), differential against a plain-Python reference model at every step",
-    text="Every depth-1 program over integer and boolean secrets (all operators, three operand-kind combinations incl. every reflected method, boolean combinations) on all input vectors of D(2), D(3) and boundary lattices for 4/8/16 bits, plus depth-2 compositions on D(2): the value returned by every API call equals the reference model's (plain int arithmetic) or the call raises; inside the narrowest reading of the documented domain a raise is a violation.",
+    text="Every depth-1 program over integer and boolean secrets (all operators, three operand-kind combinations incl. every reflected method, boolean combinations) on all input vectors of D(2), D(3) and boundary lattices for 4/8/16 bits, plus a huge-value lattice, depth-2 compositions on D(2) and the depth-3/4 sequence search (with a differential oracle: two histories reaching the same canonical state must have identical futures): the value returned by every API call equals the reference model's (plain int arithmetic) or the call raises; inside the narrowest reading of the documented domain a raise is a violation.",
     note="Reference model pv/ops.py (Python int semantics); integer ~ is excluded from the equality oracle (documented n-bit complement); boolean-typed operand combinations that the API does not offer at all are skipped and listed in the evidence."),
  "C02": dict(cat="model_checking", design="3/C02, 2.3",
     technique="exhaustive enumeration of the adversarial prover's witness space per gadget instance (exact enumeration in the real field, cross-validated against brute force in small fields)",
-    text="For every value-returning program (all operators x secret/secret, secret/const, const/secret, unary, selection, boolean combinations, 7 depth-2 compositions) and every operand vector of D(n) on which the honest run completes, the operands are pinned and ALL satisfying assignments of the variables the call introduced are enumerated in the real scalar field (bn128 and a second field; bitlength 2-3 quick, 2-4 x three fields thorough). Every result wire must take the honest value in every solution and must not depend on a free variable. The enumerating engine is validated on every run: on the same systems traced over small primes its solution sets must equal those of plain brute force over F_p.",
+    text="For every value-returning program (all operators x secret/secret, secret/const, const/secret, unary, selection, boolean combinations, fixed-point operands, secret-index array read/write, 7 depth-2 compositions) and every operand vector of D(n) on which the honest run completes, the operands are pinned and ALL satisfying assignments of the variables the call introduced are enumerated in the real scalar field (bn128 and a second field; bitlength 2-3 quick, 2-4 x three fields thorough). Every result wire must take the honest value in every solution and must not depend on a free variable. The same instances are repeated after a history in which the same call on the same operand OBJECTS first ran inside an untaken branch (history-dependent soundness). The enumerating engine is validated on every run: on the same systems traced over small primes its solution sets must equal those of plain brute force over F_p.",
     note="Alarm only with a concrete real-field witness re-verified against all recorded constraints. Soundness for bitlengths above 4 is extrapolated (gadgets are uniform in the bitlength). Two genuine defects are listed as known findings with discriminating predicates."),
  "C03": dict(cat="model_checking", design="3/C03, 2.3",
     technique="exhaustive enumeration of witness spaces (exact real-field engine) over all operand vectors of a bounded domain, compared with the run-time check and the documented relation",
-    text="For every assertion/declaration kind (six comparisons x 4 operand-kind combinations, zero/nonzero/positive, explicit widths 1..n+1 for assert_positive and to_bits, range, boolean declarations through four constructors, PackIntMod.unpack) and every operand vector of D(n): satisfiable (all witness choices enumerated; on the system of an unchecked run and on the system of an accepted run re-pinned to the vector) must equal accepted-by-the-checked-call, accepted implies the documented relation, and relation-within-width implies accepted.",
+    text="For every assertion/declaration kind (six comparisons x 4 operand-kind combinations, zero/nonzero/positive, explicit widths 0..n+1 for assert_positive and to_bits, range, boolean declarations through four constructors, PackIntMod.unpack) and every operand vector of D(n): satisfiable (all witness choices enumerated; on the system of an unchecked run and on the system of an accepted run re-pinned to the vector) must equal accepted-by-the-checked-call, accepted implies the documented relation, and relation-within-width implies accepted.",
     note="Real fields only (small fields wrap around the value domain and are not used for verdicts). Relies on pv.witness.exact, which C02 cross-validates against brute force on every run."),
  "C06": dict(cat="model_checking", design="3/C06, 2.1",
     technique="stateless exhaustive enumeration of programs x all input vectors x modes on the real code, canonical-trace comparison; recorder validated by replaying the same executions against pysnark.snarkjsbackend",
-    text="Every depth-1 program (incl. public-input operands, assertions, selection) and depth-2 composition is run on ALL input vectors of D(n), checked and with ignore_errors (valid and invalid inputs), under guard 0 and guard 1; per program, public literals and mode class all completed runs must have one canonical trace (variable kinds in order, constraints in order with coefficients mod p, result wire expressions). The same explorer is also run in a fresh process against the unmodified snarkjs backend: 35k executions must give traces identical to the recorder's.",
+    text="Every depth-1 program (incl. public-input operands, assertions, selection) and depth-2 composition is run on ALL input vectors of D(n), checked and with ignore_errors (valid and invalid inputs), under guard 0 and guard 1, and under two nested secret guards (00/01/10/11); per program, public literals and mode class all completed runs must have one canonical trace (variable kinds in order, constraints in order with coefficients mod p, result wire expressions). The same explorer is also run in a fresh process against the unmodified snarkjs backend: 35k executions must give traces identical to the recorder's.",
     note="Public integer literals are part of the program text (they are folded into coefficients), public/ private *inputs* are varied. Block constructs, arrays, packing and hashes have their trace-independence oracle in C09, C15, C16, C20."),
  "C07": dict(cat="model_checking", design="3/C07, 2.2-2.3",
     technique="exhaustive enumeration of guarded bodies x operand vectors (valid and invalid) x 12 guard realisations on the real code, plus witness-space enumeration of the enclosing selection",
@@ -36,11 +36,11 @@ CHECKS = {
     note="A raise under a false guard is skipped only if it is value-independent (the group never completes unguarded and every vector raises the same class under that guard: invalid public literal or an operation the operand types do not offer). Witness-space part at bitlength 2 (quick) / 2-3 (thorough)."),
  "C08": dict(cat="model_checking", design="3/C08, 2.4",
     technique="exhaustive enumeration of guard/branch histories (well-nested event trees) executed on the real code in six realisations, state compared with a reference stack model after every event",
-    text="All well-nested histories up to event cost 7 (quick) / 8 (thorough) and nesting depth 3 over the events enter (8 kinds of condition: boolean/integer-typed secret 0/1, public 1, and the refused ones public 0, secret 2, wrong type), leave, API op, user exception, value error, try/except; each realised as guarded(c)(f)(), as lazily evaluated then-/else-branch of if_then_else, and as _if / _else / _while blocks. After every event: the triple (guard, ignore_errors, LinComb.ONE) is identical to the one before the matching enter on every exit path, a refused enter changes nothing, inside regions guard value and wire equal the product of the enclosing conditions, is_guard()/ignore_errors() agree with it and constants evaluate to k*guard.",
+    text="All well-nested histories up to event cost 7 (quick) / 8 (thorough) and nesting depth 3 over the events enter (8 kinds of condition: boolean/integer-typed secret 0/1, public 1, and the refused ones public 0, secret 2, wrong type), leave, API op, user exception, value error, try/except; each realised as guarded(c)(f)(), as lazily evaluated then-/else-branch of if_then_else, and as _if / _else / _elif / _while / _range blocks. After every event: the triple (guard, ignore_errors, LinComb.ONE) is identical to the one before the matching enter on every exit path, a refused enter changes nothing, inside regions guard value and wire equal the product of the enclosing conditions, is_guard()/ignore_errors() agree with it and constants evaluate to k*guard.",
     note="An exception escaping a block-API region without its closing call gives the library no event to act on and is outside what the API can express (such histories are skipped for the block realisations and counted)."),
  "C09": dict(cat="model_checking", design="3/C09, 2.5",
     technique="exhaustive enumeration of generated block programs x all inputs of a small domain, each executed against a native-control-flow twin emitted from the same AST",
-    text="Every program of the grammar assign | if/elif/else | while+breakif | for _range(secret stop, public max) | lazily evaluated selection (5 secret conditions, loop maxima 2-3, nesting 1 quick / 2 thorough, with explicit ctx= and with local-variable context lookup) is exec-ed twice (oblivious API on secrets, native Python on ints) on all (x,y) in {0..3}^2 (thorough: {-2..4}^2) x b x stop in 0..max: final values equal, recorder satisfied, value==wire, one canonical trace per program over all inputs, guard state clean and block stack empty, stop > max refused under checkstopmax.",
+    text="Every program of the grammar assign | if/elif/else | while+breakif | for _range(secret stop, public max) incl. the two-argument form with a public start | lazily evaluated selection; scalar variables and a list-valued variable modified in place (5 secret conditions, loop maxima 2-3, nesting 1 quick / 2 thorough, with explicit ctx= and with local-variable context lookup) is exec-ed twice (oblivious API on secrets, native Python on ints) on all (x,y) in {0..3}^2 (thorough: {-2..4}^2) x b x stop in 0..max: final values equal, recorder satisfied, value==wire, one canonical trace per program over all inputs, guard state clean and block stack empty, stop > max refused under checkstopmax.",
     note="Public loop bounds/conditions are not in the statement's scope. Twin evaluations that divide by a negative number are skipped (known finding KF-C05-negdiv)."),
  "C10": dict(cat="model_checking", design="3/C10, 2.6",
     technique="exhaustive enumeration of backend-API call sequences (variables x value classes x constraint shapes) on pysnark.snarkjsbackend, files read back by an independent decoder",
@@ -52,7 +52,7 @@ CHECKS = {
     note="Decided modulo the FlatBuffers library: the package is absent from the image, a wire-faithful shim of flatbuffers.Builder (pv/shims/fb) is used; the decoder is written independently from zkinterface.fbs."),
  "C12": dict(cat="model_checking", design="3/C12, 2.6",
     technique="exhaustive enumeration of flat traces and of @subqap call histories on pysnark.qaptools.backend (failing tool stubs), files read back by an independent reader",
-    text="Flat traces (negative / >= p / > 256-bit values, zero and cancelled coefficients) and all call histories of two sub-circuit functions with bodies from a menu of 7 (incl. compound, constant, multiple results and nested calls) x call sequences up to length 3 (4 thorough) x input classes: every equation holds mod p on the wire/io files, public values are linked, the per-function files written by the backend's own prove() contain every traced equation in its context, same-named calls have equal equation sets and digests (an inconsistently defined function is reported), distinct equation sets have distinct digests over everything explored, every call has a glue whose paired blocks list all arguments and results in order with equal values and equal rnd1. A sample of histories is replayed in fresh interpreters and must give the same verdicts.",
+    text="Flat traces (negative / >= p / > 256-bit values, zero and cancelled coefficients) and all call histories of two sub-circuit functions with bodies from a menu of 7 (incl. compound, constant, multiple results and nested calls) x call sequences up to length 3 (4 thorough) x input classes x argument forms (bare wires, two-term combinations, scaled wires): every equation holds mod p on the wire/io files, public values are linked, the per-function files written by the backend's own prove() contain every traced equation in its context, same-named calls have equal equation sets and digests (an inconsistently defined function is reported), distinct equation sets have distinct digests over everything explored, every call has a glue whose paired blocks list all arguments and results in order with equal values and equal rnd1. A sample of histories is replayed in fresh interpreters and must give the same verdicts.",
     note="The external qaptools executables are replaced by failing stubs; only what pysnark itself writes is checked."),
  "C13": dict(cat="model_checking", design="3/C13",
     technique="exhaustive enumeration of expression trees on each backend's own linear-combination class, linear form compared with the field expression, operands re-inspected after every operation",
@@ -64,23 +64,23 @@ CHECKS = {
     note="** , << , >> and abs are not in the statement's list and are only covered by the completeness/value-wire invariants. Reference: fractions.Fraction."),
  "C15": dict(cat="model_checking", design="3/C15",
     technique="breadth-first search over array access histories on the real code with state de-duplication, compared with a Python list model after every event; witness-space enumeration for uniqueness",
-    text="Arrays 1-D length 1..4 and 2-D 2x2/2x3 with constant / secret / mixed contents; events read and write (constant or secret value) at every index of [-1, len] with secret and public indices (all four combinations for 2-D); all histories to depth 3 (thorough 4; 2-D 2/3) pruned on canonical contents: read values and contents equal the list model, out-of-range raises IndexError, recorder satisfied, value==wire; one canonical trace per history shape over all in-range index tuples; (exact engine) with contents and index pinned the read result and every element after a write are unique, and with error checking off an out-of-range index is unsatisfiable.",
+    text="Arrays 1-D length 1..4 and 2-D 2x2/2x3 with constant / secret / mixed contents; events read and write (constant or secret value) at every index of [-1, len] with secret and public indices (all four combinations for 2-D); all histories to depth 3 (thorough 4; 2-D 2/3) pruned on canonical contents: read values and contents equal the list model, out-of-range raises IndexError, recorder satisfied, value==wire; one canonical trace per history shape over all in-range index tuples; (exact engine, 1-D and 2-D, contents deliberately not affine in the position) with contents and index pinned the read result and every element after a write are unique, and with error checking off an out-of-range index is unsatisfiable - also after a history in which the same index object was first used in an untaken branch.",
     note="Merging states with equal contents and element types is sound because the library's array operations read only values, types and lengths."),
  "C16": dict(cat="model_checking", design="3/C16",
     technique="exhaustive enumeration of widths x bitlengths x values and of packer schemas x all schema values on the real code, plus witness-space enumeration of the enforced width",
-    text="to_bits(w)/from_bits round trip, assert_positive(w), check_positive(w) for every width 1..6 with global bitlength 3/4/6 on every value of [-2, 2^w+1]; with error checking off and all witness choices enumerated the system is satisfiable exactly for 0 <= v < 2^w (check_positive: result forced to the sign). Packing: every schema of the grammar Bool | IntMod(1..5) | List(0..2 items) | Repeat(s, 0..2) to depth 1 (quick) / 2 (thorough) x ALL values x {plain, integer-typed secret, boolean-typed secret}: unpack(pack(v)) == v, bitlen() == number of bits, out-of-range plain values rejected.",
+    text="to_bits(w)/from_bits round trip, assert_positive(w), check_positive(w) for every width 0..6 with global bitlength 3/4/6 on every value of [-2, 2^w+1]; with error checking off and all witness choices enumerated the system is satisfiable exactly for 0 <= v < 2^w (check_positive: result forced to the sign). Packing: every schema of the grammar Bool | IntMod(1..5) | List(0..2 items) | Repeat(s, 0..2) to depth 2 x ALL values x {plain, integer-typed secret, boolean-typed secret}: unpack(pack(v)) == v, bitlen() == number of bits, out-of-range plain values rejected.",
     note="Schemas with more than 64 values are not enumerated."),
  "C17": dict(cat="model_checking", design="3/C17",
     technique="exhaustive enumeration of argument/return structures x bodies x call sequences on the real code with the recording backend; witness-space enumeration for the output ties",
-    text="21 argument shapes (scalars int/bool/float/str/None/secret, nested lists, tuples and dicts to depth 2, empty containers) alone and in pairs x 6 bodies (identity, product, comparisons, constant, mixed structure with plain members, the same wire twice) x call sequences of length 1..3 in one run: the ordered list of public variables created by each call equals flatten(numeric arguments) ++ flatten(secret results), nothing else becomes public, the returned structure equals the undecorated function on plain values, every output variable is uniquely determined by the computed wire (all witness choices enumerated), keyword arguments raise ValueError without creating anything.",
+    text="21 argument shapes (scalars int/bool/float/str/None/secret, nested lists, tuples and dicts to depth 2, empty containers) alone and in pairs x 8 bodies (identity, product, comparisons, constant, mixed structure with plain members and unsorted dict keys, equal wires, ONE wire object published three times, the shared constant) x call sequences of length 1..3 in one run: the ordered list of public variables created by each call equals flatten(numeric arguments) ++ flatten(secret results), nothing else becomes public, the returned structure equals the undecorated function on plain values, every output variable is uniquely determined by the computed wire (all witness choices enumerated), keyword arguments raise ValueError without creating anything.",
     note="Bodies avoid division so that the known quotient finding does not interfere with the uniqueness oracle."),
  "C18": dict(cat="model_checking", design="3/C18, 2.7",
     technique="exhaustive enumeration of termination points (statement position x way of terminating x earlier caught event x autoprove x backend), one fresh interpreter each, compared with a reference function",
-    text="Script template with three tracing statements, stopped before statement 0..3 in 13 ways (fall off the end, sys.exit with no argument/None/0/False/1/str, uncaught ValueError, KeyboardInterrupt, raise SystemExit(0/1), builtin exit(0/1)), after no / a caught sys.exit(1) / a caught exception, with autoprove on and off, for snarkjs, zkinterface, zkifbellman, qaptools (failing tool stubs) and nobackend: exit status 0 and autoprove => prove() ran exactly once and the decoded artefacts hold exactly the executed statements; otherwise prove() did not run and no artefact exists; the exit hook itself never raises.",
+    text="Script template with three tracing statements, stopped before statement 0..3 in 16 ways (fall off the end, sys.exit with no argument/None/0/False/1/2/str/empty str/empty list, uncaught ValueError, KeyboardInterrupt, raise SystemExit(0/1), builtin exit(0/1)), after no / a caught sys.exit(1) / a caught sys.exit(0) / a caught exception, with autoprove on and off, for snarkjs, zkinterface, zkifbellman, qaptools (failing tool stubs) and nobackend: exit status 0 and autoprove => prove() ran exactly once and the decoded artefacts hold exactly the executed statements; otherwise prove() did not run and no artefact exists; the exit hook itself never raises.",
     note="prove() is counted by wrapping backend.prove inside the child script (no change to pysnark). Two genuine defects of the interposition are listed as known findings keyed on the termination mode / caught event."),
  "C19": dict(cat="model_checking", design="3/C19, 2.7",
     technique="exhaustive enumeration of configurations (environment value x pre-imported modules and import order x dependency availability), one fresh interpreter each, compared with a reference selection function",
-    text="PYSNARK_BACKEND in {unset, the 8 registry names, 'bogus', ''} x pre-imports in {none, each registry module, 4 pairs in both orders} x {FlatBuffers, qaptools executables, libsnark extension} each present or absent: the selected name is the pre-imported backend, else the named one (or import fails loudly when it cannot be loaded), else an 'unknown backend' message followed by the first loadable backend in registry order; backend_name identifies the module in effect, the field (get_modulus) and the module that actually receives a probe constraint; the selected backend offers the complete interface.",
+    text="PYSNARK_BACKEND in {unset, the 8 registry names, 'bogus', '', 7 near misses of known names} x pre-imports in {none, each registry module, 4 pairs in both orders} x {FlatBuffers, qaptools executables, libsnark extension} each present or absent: the selected name is the pre-imported backend, else the named one (or import fails loudly when it cannot be loaded), else an 'unknown backend' message followed by the first loadable backend in registry order; backend_name identifies the module in effect, the field (get_modulus) and the module that actually receives a probe constraint; the selected backend offers the complete interface.",
     note="libsnark is a stub extension (loadability only); FlatBuffers availability = builder shim on PYTHONPATH or not."),
  "C20": dict(cat="model_checking", design="3/C20",
     technique="exhaustive enumeration of a bounded input space for the hash gadgets on the real code (three fields), differential against an independent plain-integer implementation; parameter selection by process-level enumeration",
